@@ -304,6 +304,10 @@ pub struct PrCase {
 	pub pre_existing: Option<Vec<u8>>,
 	pub target: String,
 	pub writes: Vec<Write>,
+	/// 0: none; otherwise the process may not write files larger than this many bytes (a write beyond it fails like on a full disk):
+	/// a write either reports an error or leaves exactly the data
+	#[serde(default)]
+	pub fsize_limit: u64,
 }
 
 fn pr_strategy() -> impl Strategy<Value = PrCase> {
@@ -314,7 +318,8 @@ fn pr_strategy() -> impl Strategy<Value = PrCase> {
 		1 => Just(vec![]),
 	];
 	let target = proptest::sample::select(vec!["crt", "account", "key"]);
-	(target, proptest::option::of(data.clone()), proptest::collection::vec((data, proptest::sample::select(vec!["rsa2048", "ecdsa-p256", "ecdsa-p384", "ecdsa-p521", "ed25519", "ed448"])), 2..=6)).prop_map(|(target, pre, ws)| PrCase {
+	(target, proptest::option::of(data.clone()), proptest::collection::vec((data, proptest::sample::select(vec!["rsa2048", "ecdsa-p256", "ecdsa-p384", "ecdsa-p521", "ed25519", "ed448"])), 2..=6), prop_oneof![4 => Just(0u64), 1 => proptest::sample::select(vec![1u64, 100, 240, 1024, 2500])]).prop_map(|(target, pre, ws, fsize_limit)| PrCase {
+		fsize_limit,
 		pre_existing: pre,
 		target: target.to_string(),
 		writes: ws.into_iter().map(|(d, kt)| Write { kind: target.to_string(), data: d, key_type: kt.to_string() }).collect(),
@@ -377,7 +382,9 @@ fn exec_pr(case: &PrCase) -> Outcome {
 			}
 		}
 	}
-	let mut probe = match Probe::spawn(&acmed) {
+	let lim = case.fsize_limit.to_string();
+	let env: Vec<(&str, &str)> = if case.fsize_limit > 0 { vec![("VERIF_FSIZE", lim.as_str())] } else { vec![] };
+	let mut probe = match Probe::spawn_with(&acmed, &env, None) {
 		Ok(p) => p,
 		Err(e) => return Outcome::Infra(e),
 	};
@@ -387,8 +394,15 @@ fn exec_pr(case: &PrCase) -> Outcome {
 	};
 	let mut prev_len = case.pre_existing.as_ref().map(|p| p.len());
 	let mut shrink = false;
+	let mut refused = 0;
 	let results = reply["writes"].as_array().cloned().unwrap_or_default();
 	for (i, (r, want)) in results.iter().zip(expect.iter()).enumerate() {
+		if r["ok"].as_bool() != Some(true) && case.fsize_limit > 0 && want.len() as u64 > case.fsize_limit {
+			// the data does not fit: the write must say so (what is left in the file is not judged)
+			refused += 1;
+			prev_len = None;
+			continue;
+		}
 		if r["ok"].as_bool() != Some(true) {
 			bb::cleanup(&dir);
 			return Outcome::fail("C02:write-error", format!("write {i} ({}) failed: {}", case.target, r["err"]));
@@ -400,7 +414,13 @@ fn exec_pr(case: &PrCase) -> Outcome {
 		let got = unhex(r["stat"]["bytes"].as_str().unwrap_or("")).unwrap_or_default();
 		if got != *want {
 			bb::cleanup(&dir);
-			let sig = if got.len() > want.len() && got[..want.len()] == want[..] { "C02:residue" } else { "C02:write-content" };
+			let sig = if got.len() > want.len() && got[..want.len()] == want[..] {
+				"C02:residue"
+			} else if case.fsize_limit > 0 && want.len() as u64 > case.fsize_limit {
+				"C02:failed-write-reported-as-success"
+			} else {
+				"C02:write-content"
+			};
 			return Outcome::fail(sig, format!("{} file after write {i}: {} bytes on disk, {} bytes written (previous content {:?} bytes)", case.target, got.len(), want.len(), prev_len));
 		}
 		if let Some(p) = prev_len {
@@ -415,11 +435,11 @@ fn exec_pr(case: &PrCase) -> Outcome {
 		return Outcome::Infra("probe returned fewer results than writes".into());
 	}
 	let _: Option<Value> = None;
-	Outcome::pass(shrink, vec![format!("target={}", case.target), if shrink { "shorter-over-longer".into() } else { "never-shorter".into() }])
+	Outcome::pass(shrink || refused > 0, vec![format!("target={}", case.target), if shrink { "shorter-over-longer".into() } else { "never-shorter".into() }, format!("size-limit={}", if case.fsize_limit > 0 { "yes" } else { "no" }), format!("writes-refused-for-size={}", refused.min(2))])
 }
 
 pub fn run(ctx: &Ctx, rep: &mut Report) {
-	rep.rule = "bb: histories of 2..6 issuances of one certificate over 1..2 daemon runs (certificates issued inside renew_delay so the daemon renews at once; chain lengths drawn so that a shorter chain follows a longer one in ~70 %; the second run has other contacts, so the account file is rewritten); oracle after every post-operation(success): certificate file bytes == body the mock CA served for that order, key file == exactly the PKCS#8 PEM of the key in that order's CSR; account file decoded by a bincode mirror must be consumed entirely and hold the configured contacts. pr: histories of 2..6 writes (arbitrary bytes 0..8 KiB, keys of 6 types) to one certificate/account/key path through the daemon's storage functions, optional pre-existing content; file bytes after each write == bytes written. Non-trivial = the history contains a write strictly shorter than the previous content of the same path.".into();
+	rep.rule = "bb: histories of 2..6 issuances of one certificate over 1..2 daemon runs (certificates issued inside renew_delay so the daemon renews at once; chain lengths drawn so that a shorter chain follows a longer one in ~70 %; the second run has other contacts, so the account file is rewritten); oracle after every post-operation(success): certificate file bytes == body the mock CA served for that order, key file == exactly the PKCS#8 PEM of the key in that order's CSR; account file decoded by a bincode mirror must be consumed entirely and hold the configured contacts. pr: histories of 2..6 writes (arbitrary bytes 0..8 KiB, keys of 6 types) to one certificate/account/key path through the daemon's storage functions, optional pre-existing content, and in one history out of five a limit on the file size (RLIMIT_FSIZE of 1..2500 bytes: a write that does not fit fails like on a full disk); file bytes after each write reported successful == bytes written, and a write that does not fit is reported as failed. Non-trivial = the history contains a write strictly shorter than the previous content of the same path, or a write refused for its size.".into();
 	rep.assume("the account mirror follows the stored record layout (bincode, fixed-width integers); a layout change is reported as infrastructure error, not as violation");
 	run_replays::<BbCase>(ctx, rep, "bb", &exec_bb);
 	run_replays::<PrCase>(ctx, rep, "pr", &exec_pr);
